@@ -13,6 +13,7 @@ case "$FLAV" in
   mc-asan-nopool) CFLAGS="-O1 -g -fno-omit-frame-pointer -fsanitize=address,undefined -fno-sanitize-recover=undefined -fno-sanitize=alignment -DABTMC_NO_MEM_POOL"; SAN=1;;
   mc-asan-noalign) CFLAGS="-O1 -g -fno-omit-frame-pointer -fsanitize=address,undefined -fno-sanitize-recover=undefined -fno-sanitize=alignment -DABTMC_NO_ALIGNED_ALLOC"; SAN=1;;
   mc-ub)     CFLAGS="-O1 -g -fno-omit-frame-pointer -DABTMC_UB_ASSERT"; SAN="";;
+  mc-active) CFLAGS="-O1 -g -fno-omit-frame-pointer -DABTMC_ACTIVE_WAIT"; SAN="";;
   mc-nobar)  CFLAGS="-O1 -g -fno-omit-frame-pointer -DABTMC_NO_PTHREAD_BARRIER"; SAN="";;
   free-tsan) CC=clang; CFLAGS="-O1 -g -fno-omit-frame-pointer -fsanitize=thread -DABTMC_PASSTHROUGH"; SAN=2;;
   *) echo "unknown flavour $FLAV" >&2; exit 2;;
@@ -60,6 +61,11 @@ if [ "$FLAV" = "mc-ub" ]; then
   # configure --enable-debug=err style: ABTI_UB_ASSERT active, i.e. the library
   # aborts when it is used in a way its documentation declares undefined
   sed -i 's/^#define ABT_CONFIG_DISABLE_UB_ASSERT 1/\/* #undef ABT_CONFIG_DISABLE_UB_ASSERT *\//' $B/include/abt_config.h
+fi
+if [ "$FLAV" = "mc-active" ]; then
+  # configure --enable-wait-policy=active: external threads and tasklets busy-wait
+  # instead of sleeping on a futex
+  sed -i 's/^\/\* #undef ABT_CONFIG_ACTIVE_WAIT_POLICY \*\//#define ABT_CONFIG_ACTIVE_WAIT_POLICY 1/' $B/include/abt_config.h
 fi
 if [ "$FLAV" = "mc-nobar" ]; then
   sed -i 's/^#define HAVE_PTHREAD_BARRIER_INIT 1/\/* #undef HAVE_PTHREAD_BARRIER_INIT *\//' $B/include/abt_config.h
